@@ -4,6 +4,7 @@ import os
 import sys
 
 sys.path.insert(0, os.path.join(os.path.dirname(os.path.abspath(__file__)), "..", "lib"))
+import enumlib  # noqa: E402
 import sched  # noqa: E402
 import vlib  # noqa: E402
 import tt_common  # noqa: E402
@@ -19,15 +20,42 @@ def main():
             {"harness": "c17a", "cfg": {"carriers": "1"}, "budget_s": 45, "label": "RedialPacketConn, 1 scripted carrier x 5 failure scripts x dial end {error, block} x close at {never,1s,0,3s}: " + U},
             {"harness": "c17a", "cfg": {"carriers": "2", "fails": "4", "dialends": "1", "closes": "2"}, "budget_s": 50, "label": "RedialPacketConn, 2 scripted carriers x 4 failure scripts each x close at {never,1s}: " + U},
         ]
-        total = 100
+        passes += [
+            {"harness": "c17b-seq", "cfg": {"depth": "5"}, "budget_s": 20, "label": "QueuePacketConn, all sequences of 5 operations over {QueueIncoming a/b, ReadFrom, WriteTo a/b, recv OutgoingQueue a/b, Close} with buffer scribbling, against a FIFO reference"},
+            {"harness": "c17b-overflow", "budget_s": 10, "label": "QueuePacketConn, queueSize+5 packets each way: overflow dropped, order kept, nothing blocks"},
+            {"harness": "c17b-conc", "budget_s": 30, "label": "QueuePacketConn, 2 feeders + reader + writer (+ closer): " + U},
+            {"harness": "c17c-sweeper", "budget_s": 10, "label": "ClientMap with its real sweeper on virtual time: first seen at {0,T/4,T/2,T/2-1,3T/4} x refresh {none,T/2,T-1,T/2+1}: present with contents at idle T-1ns, discarded and closed by 1.5T"},
+        ]
+        total = 140
     else:
         passes = [
             {"harness": "c17a", "cfg": {"carriers": "1"}, "budget_s": 100, "label": "RedialPacketConn, 1 scripted carrier: " + U},
             {"harness": "c17a", "cfg": {"carriers": "2"}, "budget_s": 350, "label": "RedialPacketConn, 2 scripted carriers, full alphabets: " + U},
             {"harness": "c17a", "cfg": {"carriers": "3", "fails": "3", "dialends": "2", "closes": "2"}, "budget_s": 400, "label": "RedialPacketConn, 3 scripted carriers: " + U},
         ]
-        total = 900
+        passes += [
+            {"harness": "c17b-seq", "cfg": {"depth": "6"}, "budget_s": 120, "label": "QueuePacketConn, all sequences of 6 operations, against a FIFO reference"},
+            {"harness": "c17b-overflow", "budget_s": 10, "label": "QueuePacketConn overflow"},
+            {"harness": "c17b-conc", "budget_s": 60, "label": "QueuePacketConn, 2 feeders + reader + writer (+ closer): " + U},
+            {"harness": "c17c-sweeper", "budget_s": 10, "label": "ClientMap with its real sweeper on virtual time"},
+        ]
+        total = 1100
     summary, tot, samples, exh = sched.run_passes(rep, binary, passes, total)
+    # (c) explicit-clock inner map: explicit-state search to a fixpoint (sequential, no scheduler)
+    try:
+        eb = enumlib.build("turbotunnel-enum", "common/turbotunnel", {"zz_verif_c17c_test.go": os.path.join(vlib.VERIF, "harness/turbotunnel_enum/c17c_test.go")})
+        res = enumlib.run(eb, "TestVerifEnumC17c", tier, 60, nshards=1)
+        for f in res["findings"]:
+            rep.finding(f["sig"], f["msg"], {"input": f["input"], "kind": "operation sequence on clientMapInner"})
+        bfs = [s for s in res["samples"] if isinstance(s, dict) and "reachable_states" in s]
+        if bfs:
+            tot["states"] += bfs[0]["reachable_states"]
+            tot["transitions"] += bfs[0]["transitions"]
+            tot["executions"] += bfs[0]["transitions"]
+            summary.append({"label": "clientMapInner with explicit clock: breadth-first to a fixpoint over SendQueue/removeExpired/clock steps", "exhaustive": res["exhaustive"], **bfs[0]})
+        exh = exh and res["exhaustive"]
+    except vlib.EngineError as e:
+        rep.engine_errors.append(str(e))
     sched.sched_coverage(rep, summary, tot, samples, exh)
     rep.assumptions += ["virtual time: computation is instantaneous relative to timers",
                         "instrumenter fidelity (the package's own tests pass on the instrumented sources at setup)",
